@@ -183,6 +183,18 @@ def run_case(case, ctx):
     s = lib.num(F(case["s"]), "frac" if nt in ("frac", "int") else nt)
     aq, sq = ref.fr(a), ref.fr(s)
     kv = KnotVector(list(Un))
+    # a basis function object and a curve built on this very KnotVector object *before* the map, each evaluated once:
+    # whatever they keep inside must follow the in-place map of their knot vector
+    held_f = Function(kv)
+    held_c = None
+    ks0 = ref.distinct(Uq)
+    u0 = lib.num((ks0[0] + ks0[1]) / 2, "frac" if nt in ("frac", "int") else "float")
+    call(held_f, u0)
+    call(lambda: held_f[:, 0](u0))
+    o_c = call(Curve, kv, lib.mk_points(lib.dec(case["P"]), nt), None if lib.dec(case["W"]) is None else lib.nums(lib.dec(case["W"]), nt))
+    if o_c.ok:
+        held_c = o_c.value
+        call(held_c, u0)
     if op == "shift":
         o = call(kv.shift, a)
         want = [k + aq for k in Uq]
@@ -233,6 +245,18 @@ def run_case(case, ctx):
                 else:
                     good = all(abs(float(x) - float(y)) <= 1e-9 for x, y in zip(o0.value, o1.value))
                 ctx.check(good, f"affine:basis-invariance:{op}:{nt}", f"N_i,{j} over the mapped vector at the mapped parameter differs from N_i,{j} over U at u={u}")
+        # the objects built before the map, on the mapped vector they now hold
+        oh = call(held_f, vn)
+        o1f = call(f1, vn)
+        if ctx.check(oh.ok and o1f.ok, f"affine:held-raises:{op}", f"a Function built before the in-place {op} raised afterwards: {(oh if not oh.ok else o1f).brief()}"):
+            good = list(oh.value) == list(o1f.value) if exact else all(abs(float(x) - float(y)) <= 1e-9 for x, y in zip(oh.value, o1f.value))
+            ctx.check(good, f"affine:held-function-stale:{op}", f"a Function built (and evaluated) before the in-place {op} of its knot vector gives other values than a fresh one at u={vn}")
+        if held_c is not None:
+            oh, o1c = call(held_c, vn), call(c1, vn)
+            if ctx.check(oh.ok and o1c.ok, f"affine:held-raises:{op}", f"a Curve built before the in-place {op} raised afterwards: {(oh if not oh.ok else o1c).brief()}"):
+                g0, g1 = lib.pt_tuple(oh.value), lib.pt_tuple(o1c.value)
+                good = g0 == g1 if exact else all(abs(float(x) - float(y)) <= 1e-9 * max(1, abs(float(x))) for x, y in zip(g0, g1))
+                ctx.check(good, f"affine:held-curve-stale:{op}", f"a Curve built (and evaluated) before the in-place {op} of its knot vector gives other values than a fresh one at u={vn}")
         o0, o1 = call(c0, un), call(c1, vn)
         if ctx.check(o0.ok and o1.ok, f"affine:invariance-raises:{op}", f"curve evaluation raised {(o0 if not o0.ok else o1).brief()}"):
             g0, g1 = lib.pt_tuple(o0.value), lib.pt_tuple(o1.value)
